@@ -17,7 +17,7 @@ import pickle
 import websockets
 
 from vlib import wsharness as wh
-from vlib.common import exc_site, fp
+from vlib.common import exc_site, fp, retry_on_timeout
 
 LEVEL = "exploration"
 SHARD_TIMEOUT = {"quick": 280, "thorough": 1700}
@@ -339,7 +339,7 @@ async def amain(spec, acc, ctx):
                     if stop():
                         done = False
                         break
-                    await sch.run(scripts, order, policy)
+                    await retry_on_timeout(acc, lambda: sch.run(scripts, order, policy))
         if done:
             acc.add("two_conn_script_pairs_done", len(spec["pairs"]))
         else:
@@ -355,7 +355,7 @@ async def amain(spec, acc, ctx):
                     if stop():
                         acc.count("enumeration_incomplete")
                         break
-                    await sch.run(scripts, order, POLICIES[n % 3])
+                    await retry_on_timeout(acc, lambda: sch.run(scripts, order, POLICIES[n % 3]))
             acc.add("three_conn_triples_done", len(triples))
         for w in range(spec["walks"]):
             if stop():
@@ -371,7 +371,8 @@ async def amain(spec, acc, ctx):
                 # bias: connection 0 opens first so that the others overlap with an active one
                 order.remove(0)
                 order.insert(0, 0)
-            await sch.run(scripts, order, rng.choice(POLICIES))
+            pol = rng.choice(POLICIES)
+            await retry_on_timeout(acc, lambda: sch.run(scripts, order, pol))
             acc.count("three_conn_walks")
     await server.stop()
 
